@@ -23,6 +23,8 @@ type Reply struct {
 	Drop     bool          // close the connection instead of replying
 	CutAt    int           // >0: write only the first CutAt bytes of the reply, then abort the connection
 	Raw      []byte        // if set, written instead of the encoded Msg
+	StallAt  int           // >0 with StallFor: write the first StallAt bytes, write nothing on this connection for StallFor, then write the rest
+	StallFor time.Duration
 	TraceID  *[16]byte
 	Warnings []string
 	Stream   *int   // override the stream id of the reply
@@ -50,6 +52,15 @@ type ServerConn struct {
 	Keyspace string
 	Ready    bool
 	Unparsed func() int // bytes received but not yet forming a complete frame (sync mode)
+
+	stallUntil time.Duration // a reply stalled mid-frame holds back every later write on this connection until then
+}
+
+// waitStall blocks while a stalled reply holds the connection's outgoing stream.
+func (sc *ServerConn) waitStall() {
+	for sc.stallUntil > vsched.Clock() {
+		vsched.Sleep(sc.stallUntil - vsched.Clock())
+	}
 }
 
 type Handler func(n *Node, sc *ServerConn, rec *ReqRec) Reply
@@ -243,6 +254,16 @@ func (n *Node) dispatch(sc *ServerConn, rec *ReqRec, h frame.Header, rep Reply) 
 			sc.C.WriteAndAbort(raw[:rep.CutAt])
 			return
 		}
+		sc.waitStall()
+		if rep.StallAt > 0 && rep.StallAt < len(raw) && rep.StallFor > 0 {
+			rec.Fate = "stall"
+			if _, err := sc.C.Write(raw[:rep.StallAt]); err != nil {
+				return
+			}
+			sc.stallUntil = vsched.Clock() + rep.StallFor
+			vsched.Sleep(rep.StallFor)
+			raw = raw[rep.StallAt:]
+		}
 		if _, err := sc.C.Write(raw); err == nil {
 			n.touch()
 			rec.Replied = true
@@ -260,6 +281,7 @@ func (sc *ServerConn) Push(version int, msg interface{}) error {
 	if err != nil {
 		return err
 	}
+	sc.waitStall()
 	_, err = sc.C.Write(enc.Bytes())
 	return err
 }
